@@ -4,6 +4,7 @@ CONSTANTS
   Containers = {1, 2, 3, 4}
   Nums = {5}
   DevFirstWins = FALSE
+  DropU = {}
   Emit = TRUE
 INVARIANTS Deterministic EmitInv
 CHECK_DEADLOCK FALSE
